@@ -277,9 +277,6 @@ func referenceLine(l []byte, bh *Header) error {
 			if err != nil {
 				return err
 			}
-			if rf.uri.Scheme != "http" && rf.uri.Scheme != "ftp" {
-				rf.uri.Scheme = "file"
-			}
 		default:
 			rf.otherTags = append(rf.otherTags, tagPair{tag: t, value: fs})
 		}
